@@ -710,7 +710,7 @@ class ASTIndexExpression(ASTExpressionBase):
         """返回语法节点的 SQL 源码"""
         if sql_type != SQLType.HIVE:
             raise NotSupportError(f"数组下标不支持SQL类型:{sql_type}")
-        return f"{self.array.source(sql_type)}"
+        return f"{self.array.source(sql_type)}[{self.idx.source(sql_type)}]"
 
 
 @dataclasses.dataclass(slots=True, frozen=True, eq=True)
